@@ -57,13 +57,19 @@ def run(ctx):
                                        seed=ctx.seed * 1000 + i, timeout=900)
     kinds = set()
     sizes = set()
+    restarts = set()
     for b in behaviours:
         for st in b:
+            if st["a"]["name"] != "Store":
+                restarts.add(st["a"].get("graceful"))
+                continue
             sizes.add(st["a"]["size"])
             for k, e, r in zip(st["a"]["kinds"], st["a"]["evs"], st["a"]["revs"]):
                 kinds.add((k, e, r))
     if len({k for k, _, _ in kinds}) < 10 or sizes != {0, 1, 2, 3}:
         raise vlib.Broken("generated behaviours do not cover all ten transaction kinds and block sizes 0..3")
+    if restarts != {True, False}:
+        raise vlib.Broken("generated behaviours contain no graceful and ungraceful restart between stores")
     res = ctx.run_engine(binary, "TestAccessorsReplay",
                          {"seed": 0, "start": 0, "behaviours": behaviours, "concurrent": True, "large": True,
                           "backends": ["memory", "pebblev2", "memory-poisoned"]},
